@@ -175,33 +175,6 @@ def fin_array_pairs(m, ty):
     return out
 
 
-def residual_cause(env, f, assignment, completion):
-    """Why get_value did not reach a constant: names the one documented family (an equality between two structurally
-    different constant array values that walk_equals leaves undecided), else None."""
-    try:
-        model = EagerModel(assignment=assignment, environment=env)
-        if completion:
-            model._complete_model(f.get_free_variables())
-            r = env.substituter.substitute(f, model.completed_assignment).simplify()
-        else:
-            r = env.substituter.substitute(f, model.assignment).simplify()
-    except Exception:   # noqa
-        return None
-    if r.is_constant() or r.get_free_variables():
-        return None
-    stack, seen = [r], set()
-    while stack:
-        x = stack.pop()
-        if x in seen:
-            continue
-        seen.add(x)
-        if x.is_equals() and x.arg(0).is_array_value() and x.arg(1).is_array_value() \
-           and x.arg(0).is_constant() and x.arg(1).is_constant() and x.arg(0) is not x.arg(1):
-            return "unfolded-const-array-equality"
-        stack += list(x.args())
-    return None
-
-
 def run(tier):
     chk = lib.Check("C02", tier)
     rnd = random.Random(chk.seed)
@@ -239,14 +212,11 @@ def run(tier):
             if I is not None:
                 ev, exact = refeval.evaluate_ex(f, I)
                 stats["oracle_evaluations"] += 1
-                cause = residual_cause(env, f, assignment, completion) if (v is None or (ask_sat and sat != "skip" and sat != bool(ev))) else None
-                if cause:
-                    stats["known_family_" + cause] = stats.get("known_family_" + cause, 0) + 1
                 if v is None:
                     chk.violation({"kind": "input", "what": "get_value raised although the formula is ground-evaluable under the assignment",
                                    "formula": S.ser(f), "assignment": {str(k): S.ser(x) for k, x in assignment.items()},
                                    "completion": completion, "expected_value": repr(ev)},
-                                  key=("gv-raises:" + cause) if cause else ("gv-raises:" + key))
+                                  key="gv-raises:" + key)
                 else:
                     got = refeval.evaluate_ex(v, refeval.Interp({}))[0]
                     if got != ev:
@@ -256,7 +226,7 @@ def run(tier):
                 if ask_sat and f.get_type().is_bool_type() and sat != "skip" and sat != bool(ev):
                     chk.violation({"kind": "input", "what": "satisfies() = %s but the formula's value is %r" % (sat, ev),
                                    "formula": S.ser(f), "assignment": {str(k): S.ser(x) for k, x in assignment.items()}},
-                                  key=("sat-wrong:" + cause) if cause else ("sat-wrong:" + key))
+                                  key="sat-wrong:" + key)
             elif v is not None and not completion:
                 # partial assignment: a returned value must hold for every completion (sampled)
                 stats["partial_calls"] += 1
